@@ -158,6 +158,10 @@ fn section_of(line_diff: &str) -> String {
 }
 
 pub fn case(ch: &mut Choices, ctx: &CaseCtx) -> CaseOut {
+    // 1 case in 25: the same guarantee seen through the real binary's /snapshot, /rollback and trial mode
+    if ch.chance(1, 25) && crate::props::replbin::bin_path().is_some() {
+        return crate::props::replbin::repl_case(ch, ctx, 0, "repl");
+    }
     let mut out = CaseOut::default();
     let big = ctx.tier_thorough;
     let with_d2 = ch.chance(1, 12);
